@@ -260,6 +260,18 @@ def run(ctx):
         C.check(okr, 'C10-MUST-remove', 'set_file_membership|empty-set-always-resets', 'set_file_membership can return without having looked at "is the new set empty" (an early return for some elements, e.g. the root): '
                 'the reset of the root element\'s file set that remove_file relies on is skipped, and the next create_file attributes the whole model to a file that is gone', '%s:%d' % (sfm.file, sfm.line),
                 sample={'fn': 'set_file_membership', 'is_empty_test_dominates_every_return': okr})
+    # a moved element belongs to the files of its NEW parent: both move workers reset the file sets of the moved subtree on every Ok path
+    # (a set assigned below the old parent can name files that do not contain the new parent - the element would be written to no
+    # file - or, after a cross-model move, files of another model)
+    for fn in ('ElementRaw::move_element_local', 'ElementRaw::move_element_full'):
+        mb = P.get(fn)
+        clr = [pos for pos, t in mb.iter_calls() if call_matches(t, r'HashSet::<T, S.*>::clear$') and (lambda rp: rp is not None and has_field(rp, 'ElementRaw.file_membership'))(E.recv_place(mb, t))]
+        clr += [pos for pos, s_ in mb.iter_stmts() if s_['k'] == 'assign' and ends_in_field(s_['dst'], 'ElementRaw.file_membership')]
+        walk_m = [q for q in calls(mb, ITER_RX) if clr and any(any(c_[0] in body for c_ in clr) and q[0] in body for h, body in mb.natural_loops())]
+        okm = bool(clr) and bool(walk_m) and all(must_pass(mb, (0, 0), [x_], through=set(walk_m)) for x_ in E.ok_exit_positions(mb))
+        C.check(okm, 'C10-MUST-remove', '%s|file-sets-of-the-moved-subtree-are-reset' % fn.split('::')[-1], '%s keeps the file sets that the moved elements had below their old parent: an element with its own set that is moved below a parent '
+                'in other files is attributed to files that do not contain its parent and is written to NO file; after a move between models its set names files of the other model' % fn, '%s:%d' % (mb.file, mb.line),
+                sample={'fn': fn, 'on_every_ok_path': 'for each element of the moved subtree: file_membership.clear()'})
     # an element whose set became empty is deleted: the push/remove is guarded by is_empty true edge (tested AFTER the removal)
     cops = E.content_ops(rf)
     clears = [o for o in cops if o['op'] == 'clear']
